@@ -144,7 +144,10 @@ Definition rd_refused (c : char) : bool :=
 Definition cont_ok (r : str) : bool :=
   match r with
   | [] => false
-  | c3 :: _ => negb ((c3 =? c_nl) || (c3 =? c_sp) || (c3 =? c_tab))
+  | c3 :: r3 =>
+      if (c3 =? c_nl) || (c3 =? c_sp) || (c3 =? c_tab) then false
+      else if c3 =? c_bs then match r3 with [] => false | c4 :: _ => negb (c4 =? c_nl) end   (* not a continuation *)
+      else true
   end.
 
 Definition end_line (after : bool) (cur : option str) (tg ws : list str) (acc : list mrule) : option (list mrule) :=
